@@ -354,3 +354,58 @@ pub(crate) fn c07_registered_type_codes() {
         }
     }
 }
+
+/// Unix address block with *sparse* symbolic content: both 108-byte paths are a constant fill with three
+/// symbolic bytes each (first, middle, last position), so that content-dependent encoders (e.g. one that stops
+/// at a NUL) are explored cheaply. Built bytes against the reference, then parsed back.
+#[kani::proof]
+#[kani::unwind(14)]
+pub(crate) fn c07_unix_sparse_content() {
+    let s3: [u8; 3] = kani::any();
+    let d3: [u8; 3] = kani::any();
+    let mut s = [0x41u8; 108];
+    let mut d = [0x42u8; 108];
+    s[0] = s3[0];
+    s[53] = s3[1];
+    s[107] = s3[2];
+    d[0] = d3[0];
+    d[54] = d3[1];
+    d[107] = d3[2];
+    let (cmd, cmd_code) = any_command();
+    let (proto, proto_code) = any_protocol();
+    let b = Builder::with_addresses(Version::Two | cmd, proto, Addresses::Unix(Unix::new(s, d)));
+    let out = match b.build() {
+        Ok(o) => o,
+        Err(e) => {
+            forget(e);
+            assert!(false, "build failed");
+            return;
+        }
+    };
+    assert!(out.len() == 16 + 216);
+    assert!(out[12] == 0x20 | cmd_code && out[13] == 0x30 | proto_code);
+    assert!(out[14] == 0 && out[15] == 216);
+    if let Some(i) = crate::any_below(108) {
+        assert!(out[16 + i] == s[i]);
+        assert!(out[124 + i] == d[i]);
+    }
+    let r = Header::try_from(out.as_slice());
+    match &r {
+        Ok(h) => match h.addresses {
+            Addresses::Unix(u) => {
+                if let Some(i) = crate::any_below(108) {
+                    assert!(u.source[i] == s[i] && u.destination[i] == d[i]);
+                }
+                kani::cover!(
+                    s3[0] == 0 && s3[1] != 0,
+                    "abstract-socket style path (leading NUL)"
+                );
+                kani::cover!(d3[1] == 0 && d3[2] != 0, "non-zero byte after a NUL");
+            }
+            _ => assert!(false),
+        },
+        Err(_) => assert!(false, "built header does not parse"),
+    }
+    forget(r);
+    forget(out);
+}
